@@ -228,6 +228,16 @@ Lemma down_vs_bindupdate_vs_pending_peers_writer_deadlocks :
   deadlocks down4_threads (rep 0 18 ++ rep 1 3 ++ rep 2 3 ++ [3; 3]).
 Proof. vm_compute. reflexivity. Qed.
 
+(* E2, three-party form (CONFIRMED on the real code by the thorough stress run, replayed with the
+   receiver in the sender's place): 0 Down holds peers.RLock, Peer.Stop waits for the peer's
+   routine;  2 that routine (sender after a send / receiver after a packet, key past a rekey
+   threshold) is in CreateMessageInitiation wanting staticIdentity.RLock;  1 UAPI private_key
+   (ANY key, no collision) holds staticIdentity.Lock and waits for peers.Lock. *)
+Definition f3d_threads := [prog_down 2 none none; prog_set_key none none true false; g_sender].
+Lemma down_vs_setprivatekey_vs_sender_rekey_deadlocks :
+  deadlocks f3d_threads (rep 2 18 ++ rep 0 18 ++ rep 1 5).
+Proof. vm_compute. reflexivity. Qed.
+
 (* E2, three-party form through UAPI only (model-level candidate, NOT reproduced on the real code:
    the timer cannot be parked at a harness-owned point without also blocking Down's BindClose):
    0 Down holds peers.RLock, Peer.Stop -> Timer.DelSync waits for the running lock of
